@@ -185,6 +185,34 @@ def twin_engines(t, tag):
             SchemaRegistry._schemas.pop(sn, None)
         except Exception:
             pass
+    # a bundle that cannot be cooked alone (a directive hook that is not awaitable) cannot be cooked after other engines either
+    sn = unique_schema_name("twinbad%s" % tag)
+
+    @t.Directive("tw", schema_name=sn)
+    class TwBad:
+        def on_field_execution(self, directive_args, next_resolver, parent, args, ctx, info):
+            return None
+
+    @t.Scalar("Sw", schema_name=sn)
+    class Sw2:
+        def coerce_output(self, v):
+            return v
+
+        def coerce_input(self, v):
+            return v
+
+        def parse_literal(self, ast):
+            return getattr(ast, "value", None)
+    try:
+        main_loop().run(t.create_engine(TWIN_SDL, schema_name=sn))
+        out.append("a bundle with a non-awaitable directive hook cooks when other engines were cooked before it")
+    except BaseException:
+        pass
+    try:
+        from tartiflette.schema.registry import SchemaRegistry
+        SchemaRegistry._schemas.pop(sn, None)
+    except Exception:
+        pass
     return out
 
 
